@@ -374,45 +374,83 @@ func ordinal(i int) string {
 func checkDartFileAssignment(w *World, r *Result) {
 	gen := w.MustFunc("generator/dart.(buffer).generate")
 	info := gen.Pkg.TypesInfo
-	// the variable defined from linker.GetOutput(typ.Type())
-	var fileVar types.Object
-	ast.Inspect(gen.Decl.Body, func(x ast.Node) bool {
-		if as, ok := x.(*ast.AssignStmt); ok && len(as.Rhs) == 1 {
-			if call, ok := as.Rhs[0].(*ast.CallExpr); ok && strings.HasSuffix(fullName(calleeOf(info, call)), "Linker).GetOutput") {
-				if len(call.Args) == 1 && strings.HasSuffix(es(call.Args[0]), ".Type()") && fileVar == nil {
-					if id := identOf(as.Lhs[0]); id != nil {
+	// the variable defined from linker.GetOutput(typ.Type()): in generate itself, or in a helper of the package that
+	// computes the file and whose result generate binds (outfile := buf.outputFor(typ, parent))
+	var fileVar types.Object // in generate
+	unit := gen              // where the file is computed
+	var unitVar types.Object
+	for _, cf := range calleeClosure(w, gen, 1) {
+		ast.Inspect(cf.Decl.Body, func(x ast.Node) bool {
+			if as, ok := x.(*ast.AssignStmt); ok && len(as.Rhs) == 1 {
+				if call, ok := as.Rhs[0].(*ast.CallExpr); ok && strings.HasSuffix(fullName(calleeOf(info, call)), "Linker).GetOutput") {
+					if len(call.Args) == 1 && strings.HasSuffix(es(call.Args[0]), ".Type()") && unitVar == nil {
+						if id := identOf(as.Lhs[0]); id != nil {
+							unitVar = objOf(info, id)
+							unit = cf
+						}
+					}
+				}
+			}
+			return true
+		})
+	}
+	if unitVar == nil {
+		Undecided("dart.generate: no `outfile := linker.GetOutput(typ.Type())`")
+	}
+	if unit == gen {
+		fileVar = unitVar
+	} else {
+		// the helper returns its variable on every path, and generate binds the result
+		helperOK := true
+		ast.Inspect(unit.Decl.Body, func(x ast.Node) bool {
+			if ret, ok := x.(*ast.ReturnStmt); ok && len(ret.Results) == 1 {
+				if id := identOf(ret.Results[0]); id == nil || objOf(info, id) != unitVar {
+					helperOK = false
+				}
+			}
+			return true
+		})
+		ast.Inspect(gen.Decl.Body, func(x ast.Node) bool {
+			if as, ok := x.(*ast.AssignStmt); ok && len(as.Rhs) == 1 && len(as.Lhs) == 1 {
+				if call, ok := as.Rhs[0].(*ast.CallExpr); ok && calleeOf(info, call) == unit.Obj {
+					if id := identOf(as.Lhs[0]); id != nil && fileVar == nil {
 						fileVar = objOf(info, id)
 					}
 				}
 			}
-		}
-		return true
-	})
-	if fileVar == nil {
-		Undecided("dart.generate: no `outfile := linker.GetOutput(typ.Type())`")
-	}
-	// overrides of fileVar only inside a type switch case for Map/Array
-	okOverride := true
-	ast.Inspect(gen.Decl.Body, func(x ast.Node) bool {
-		as, ok := x.(*ast.AssignStmt)
-		if !ok || as.Tok == token.DEFINE {
 			return true
+		})
+		if !helperOK || fileVar == nil {
+			Undecided("dart.generate: the helper %s computing the output file does not return it on every path, or its result is not bound", unit.Name)
 		}
-		for _, l := range as.Lhs {
-			if id := identOf(l); id != nil && objOf(info, id) == fileVar {
-				kinds := ""
-				for _, c := range pathConds(gen.Decl, as) {
-					if strings.HasPrefix(c.text, "case ") {
-						kinds = c.text
+	}
+	// overrides of the file variable only inside a type switch case for Map/Array
+	okOverride := true
+	for _, pr := range []struct {
+		fi *FuncInfo
+		v  types.Object
+	}{{unit, unitVar}, {gen, fileVar}} {
+		ast.Inspect(pr.fi.Decl.Body, func(x ast.Node) bool {
+			as, ok := x.(*ast.AssignStmt)
+			if !ok || as.Tok == token.DEFINE {
+				return true
+			}
+			for _, l := range as.Lhs {
+				if id := identOf(l); id != nil && objOf(info, id) == pr.v {
+					kinds := ""
+					for _, c := range pathConds(pr.fi.Decl, as) {
+						if strings.HasPrefix(c.text, "case ") {
+							kinds = c.text
+						}
+					}
+					if kinds != "case *an.Map,*an.Array" && kinds != "case *an.Array,*an.Map" {
+						okOverride = false
 					}
 				}
-				if kinds != "case *an.Map,*an.Array" && kinds != "case *an.Array,*an.Map" {
-					okOverride = false
-				}
 			}
-		}
-		return true
-	})
+			return true
+		})
+	}
 	r.cond(okOverride, "AGR-C06c", gen.Name, "only anonymous maps and arrays take the parent's file", fnPos(w, gen), "the file of a node is Linker.GetOutput(its own type), overridden by the parent's file only in `case *an.Map, *an.Array`", "a named node can be assigned the parent's file: it is emitted outside the file of its package")
 	// every return returns fileVar
 	allRet := true
